@@ -1019,13 +1019,53 @@ def rule_composite(ctx):
     for fn in [f for f in predictors(F) if (f["d"].get("self_adt") or "").endswith("MultiTargetModel") and f["d"]["name"] == "predict_inplace"]:
         r = Render(fn["crate"])
         key = fn_key(fn)
-        body = r.e(fn["body"])
         res.instance("%s : (models, n) buffer transposed" % key)
-        m = re.search(r"\.into_shape\(\((.*?), (.*?)\)\)\.unwrap\(\)\.(\w+)\(\)", body)
-        if m and "models.len()" in m.group(1) and re.search(r"nrows\(\)|len_of\(ndarray::Axis\(0\)\)", m.group(2)) and m.group(3) in ("reversed_axes", "t"):
+        from .shortcut import _fn_of_def
+        from .taint import parent_map
+        c_ = fn["crate"]
+        pm = parent_map(fn["body"])
+        shp = next((y for y in walk(fn["body"]) if y.get("k") == "MethodCall" and y["name"] in ("into_shape", "to_shape", "into_shape_with_order") and y["args"] and peel_refs(y["args"][0]).get("k") == "Tup" and len(peel_refs(y["args"][0])["es"]) == 2), None)
+        if shp is None:
+            res.undecided("%s : reshape" % key, "no `into_shape((a, b))` of the collected predictions (fail closed)", fn_loc(fn))
+            continue
+        # the list the per-model predictions are produced from: `self.<field>.iter().flat_map(..)`
+        src = peel_refs(shp["recv"])
+        field = None
+        for y in walk(src):
+            if y.get("k") == "Field" and peel_refs(y["e"]).get("name") == "self":
+                field = y["name"]
+
+        def is_model_count(e, depth=0):
+            e = peel_refs(e)
+            if e.get("k") == "MethodCall" and e["name"] == "len":
+                b = peel_refs(e["recv"])
+                return b.get("k") == "Field" and b["name"] == field and peel_refs(b["e"]).get("name") == "self"
+            if e.get("k") == "MethodCall" and peel_refs(e["recv"]).get("name") == "self" and not e["args"] and depth < 2:
+                g = _fn_of_def(F, c_, e.get("def"))
+                if g is not None:
+                    b = g["body"]
+                    while b.get("k") == "Block" and not b.get("stmts") and b.get("e") is not None:
+                        b = strip(b["e"])
+                    return is_model_count(b, depth + 1)
+            return False
+
+        def is_row_count(e):
+            e = peel_refs(e)
+            return e.get("k") == "MethodCall" and e["name"] in ("nrows", "len_of", "nsamples") and peel_refs(e["recv"]).get("local") in [b["local"] for p_ in fn["params"][1:2] for b in pat_bindings(p_)]
+        a0, a1 = peel_refs(shp["args"][0])["es"]
+        up, transposed = pm.get(id(shp)), False
+        while up is not None and up.get("k") in ("MethodCall", "Ref", "Paren", "DropTemps", "Unary"):
+            if up.get("k") == "MethodCall" and up["name"] in ("reversed_axes", "t", "permuted_axes"):
+                transposed = True
+            up = pm.get(id(up))
+        if is_model_count(a0) and is_row_count(a1) and transposed:
             res.ok()
+        elif is_row_count(a0) and is_model_count(a1):
+            res.violate("%s : reshape-without-transpose" % key, "the per-model predictions (one model after the other in the buffer) are reshaped as (n, models): column j is not model j's prediction", fn_loc(fn, shp.get("ln")))
+        elif is_model_count(a0) and is_row_count(a1) and not transposed:
+            res.violate("%s : reshape-without-transpose" % key, "the (models, n) buffer is not transposed: the result has one row per model", fn_loc(fn, shp.get("ln")))
         else:
-            res.violate("%s : reshape-without-transpose" % key, "the per-model predictions are not reshaped as (models, n) and then transposed: column j would not be model j's prediction", fn_loc(fn))
+            res.undecided("%s : reshape-extents" % key, "`%s`: the extents were not recognised as (number of models, number of rows) (fail closed)" % r.e(shp["args"][0])[:60], fn_loc(fn, shp.get("ln")))
     # Platt
     for fn in [f for f in predictors(F) if (f["d"].get("self_adt") or "").endswith("Platt") and f["d"]["name"] == "predict_inplace"]:
         r = Render(fn["crate"])
